@@ -25,6 +25,7 @@ META = {
             'and ERL comparisons; runs are cut after a fixed number of statements. Event traps other than KEY are not probed (they would need wall-clock or hardware); '
             'the crash class covers them because any handler line outside the renumbered range raised the same KeyError. RENUM with "." arguments is not generated.',
 }
+META['text'] += ' The trap scenario includes RENUM given while the program is stopped (STOP) inside its error handler, continued with CONT before the probes.'
 
 H_LINE = 'PRINT "E";ERR;"L";ERL:IF ERR THEN RESUME NEXT ELSE RETURN'
 W_LINE = 'FOR I=1 TO 3:NEXT:END'
